@@ -14,7 +14,15 @@ export GOFLAGS=-mod=mod GOPROXY=off GOSUMDB=off
 W=/tmp/eval-$P-$X
 rm -rf $W; git -C /repo worktree prune; git -C /repo worktree add -q --detach $W HEAD || exit 2
 PKGDIR=${PKGDIR:-}
-if [ -z "$PKGDIR" ]; then PKGDIR=$(grep -ho 'package directory[^`]*`[^`]*`' $SRC/$X.md 2>/dev/null | head -1 | sed 's/.*`\(.*\)`/\1/'); fi
+if [ -z "$PKGDIR" ] && [ -f $SRC/meta.json ]; then PKGDIR=$(python3 -c "import json;print(json.load(open('$SRC/meta.json')).get('demo_dir',''))"); fi
+if [ -z "$PKGDIR" ] && [ -n "$DEMO" ]; then
+  PK=$(grep -m1 '^package ' $DEMO | awk '{print $2}' | sed 's/_test$//')
+  case $PK in
+    fix) PKGDIR=fix;; encoding) PKGDIR=fix/encoding;; simplefixgo) PKGDIR=.;; session) PKGDIR=session;;
+    tests) PKGDIR=tests;; memory) PKGDIR=storages/memory;; utils) PKGDIR=utils;; generator) PKGDIR=generator;;
+    main) PKGDIR=cmd/fixgen;; messages) PKGDIR=session/messages;; fix44) PKGDIR=tests/fix44;; *) PKGDIR=;;
+  esac
+fi
 echo "== $P-$X: diff $(wc -l < $DIFF) lines, demo $DEMO, pkgdir '${PKGDIR}'"
 cd $W
 if ! git apply $DIFF; then echo "RESULT $P-$X: diff does not apply"; cd /; git -C /repo worktree remove --force $W; exit 1; fi
@@ -24,9 +32,9 @@ DEMOWITH=skip; DEMOWITHOUT=skip
 if [ -n "$DEMO" ] && [ -n "$PKGDIR" ]; then
   cp $DEMO $W/$PKGDIR/zz_mutant_demo_test.go
   FLAGS=""; grep -q -- "-race" $SRC/$X.md 2>/dev/null && FLAGS="-race"
-  DEMOWITH=passes; go test $FLAGS -vet=off -count=1 ./$PKGDIR/ >/tmp/eval-demo1.log 2>&1 || DEMOWITH=fails
+  DEMOWITH=passes; go test $FLAGS -vet=off -count=1 -run "[Mm]utant" ./$PKGDIR/ >/tmp/eval-demo1.log 2>&1 || DEMOWITH=fails
   git apply -R $DIFF
-  DEMOWITHOUT=passes; go test $FLAGS -vet=off -count=1 ./$PKGDIR/ >/tmp/eval-demo2.log 2>&1 || DEMOWITHOUT=fails
+  DEMOWITHOUT=passes; go test $FLAGS -vet=off -count=1 -run "[Mm]utant" ./$PKGDIR/ >/tmp/eval-demo2.log 2>&1 || DEMOWITHOUT=fails
 fi
 cd /; git -C /repo worktree remove --force $W
 echo "   build=$BUILD suite=$SUITE demo-with-change=$DEMOWITH demo-without=$DEMOWITHOUT"
